@@ -174,6 +174,154 @@ Theorem gfm_filter_neutralises (text : str) :
   /\ Neutral text (gfm_filter text).
 Proof. split; [apply no_occ_skipn, gfm_no_occ|apply gfm_neutral]. Qed.
 
+(* ---------- which characters the case-insensitive match of RE_FLOW covers ---------- *)
+
+(* re.IGNORECASE on a str pattern: besides the two ASCII cases, 'i' also matches U+0130 and
+   U+0131 (dotted capital / dotless small i) and 's' also matches U+017F (long s); no other
+   letter of the tag list has a non-ASCII case variant. *)
+Definition spec_ci (l : N) : list N :=
+  [l - 32; l] ++ (if N.eqb l 105 then [304; 305] else if N.eqb l 115 then [383] else []).
+
+Lemma casefold_classes : Forall (fun l => flow_ci l = spec_ci l) (concat flow_tags).
+Proof. repeat constructor. Qed.
+
+(* ---------- un-filtering ---------- *)
+
+Definition s_lt_tail : str := [108; 116; 59].     (* "lt;" *)
+
+(* rewrite every "&lt;" that is followed by what RE_FLOW matches after a '<' back to '<' *)
+Fixpoint unf (skip : nat) (s : str) : str :=
+  match s with
+  | [] => []
+  | c :: r =>
+      match skip with
+      | S k => unf k r
+      | O => if N.eqb c 38 && startswith r s_lt_tail && tag_ahead (skipn 3 r)
+             then 60 :: unf 3 r else c :: unf 0 r
+      end
+  end.
+
+Definition unfilter (s : str) : str := unf 0 s.
+
+(* the text holds no "&lt;" + tag of its own *)
+Fixpoint no_esc (s : str) : bool :=
+  match s with
+  | [] => true
+  | c :: r => negb (N.eqb c 38 && startswith r s_lt_tail && tag_ahead (skipn 3 r)) && no_esc r
+  end.
+
+Lemma F_local_re : forallb (fun p => forallb (fun cl : cls => negb (cl 60) && negb (cl 38)) p) (tag_pats re_ci) = true.
+Proof. vm_compute. reflexivity. Qed.
+
+Lemma pat_local_conv (p : list cls) :
+  (forall cl, In cl p -> cl 60 = false) ->
+  forall r, pat_match p r = true -> pat_match p (gfm_filter r) = true.
+Proof.
+  induction p as [|cl p IH]; intros Hp r H; [reflexivity|].
+  destruct r as [|c r]; [discriminate|]. cbn [pat_match] in H. apply andb_true_iff in H as [H1 H2].
+  cbn [gfm_filter]. assert (E : N.eqb c flow_open = false).
+  { rewrite flow_open_is. destruct (N.eqb c 60) eqn:E; auto. apply N.eqb_eq in E. subst c.
+    rewrite (Hp cl (or_introl eq_refl)) in H1. discriminate. }
+  rewrite E. cbn [andb pat_match]. rewrite H1. simpl. apply IH; auto. intros cl' Hcl'. apply Hp. right. exact Hcl'.
+Qed.
+
+Lemma tag_ahead_filter r : tag_ahead (gfm_filter r) = tag_ahead r.
+Proof.
+  assert (L : forall p, In p (tag_pats re_ci) -> forall cl, In cl p -> cl 60 = false /\ cl 38 = false).
+  { intros p Hp cl Hcl. pose proof F_local_re as F. rewrite forallb_forall in F. specialize (F p Hp).
+    rewrite forallb_forall in F. specialize (F cl Hcl). apply andb_true_iff in F as [F1 F2].
+    apply negb_true_iff in F1, F2. auto. }
+  unfold tag_ahead. destruct (existsb (fun p => pat_match p r) (tag_pats re_ci)) eqn:E.
+  - apply existsb_exists in E as [p [Hp Hm]]. apply existsb_exists. exists p. split; auto.
+    apply pat_local_conv; auto. intros cl Hcl. apply (L p Hp cl Hcl).
+  - destruct (existsb (fun p => pat_match p (gfm_filter r)) (tag_pats re_ci)) eqn:E'; auto.
+    apply existsb_exists in E' as [p [Hp Hm]]. apply pat_local in Hm; [|apply (L p Hp)].
+    assert (existsb (fun p => pat_match p r) (tag_pats re_ci) = true) by (apply existsb_exists; eauto). congruence.
+Qed.
+
+Definition lt_pat : list cls := [cls_eq 108; cls_eq 116; cls_eq 59].
+
+Lemma sw_step c p a r : startswith (a :: r) (c :: p) = N.eqb a c && startswith r p.
+Proof. simpl. rewrite N.eqb_sym. reflexivity. Qed.
+
+Lemma startswith_pat r : startswith r s_lt_tail = pat_match lt_pat r.
+Proof.
+  unfold lt_pat, s_lt_tail.
+  destruct r as [|a r]; [reflexivity|]. rewrite sw_step. cbn [pat_match]. unfold cls_eq at 1. f_equal.
+  destruct r as [|b r]; [reflexivity|]. rewrite sw_step. cbn [pat_match]. unfold cls_eq at 1. f_equal.
+  destruct r as [|c r]; [reflexivity|]. rewrite sw_step. cbn [pat_match]. unfold cls_eq at 1. f_equal.
+  destruct r; reflexivity.
+Qed.
+
+Lemma lt_pat_local : forall cl, In cl lt_pat -> cl 60 = false /\ cl 38 = false.
+Proof. intros cl [<-|[<-|[<-|[]]]]; split; reflexivity. Qed.
+
+Lemma startswith_filter r : startswith (gfm_filter r) s_lt_tail = startswith r s_lt_tail.
+Proof.
+  rewrite !startswith_pat. destruct (pat_match lt_pat r) eqn:E.
+  - apply pat_local_conv; auto. intros cl Hcl. apply lt_pat_local. exact Hcl.
+  - destruct (pat_match lt_pat (gfm_filter r)) eqn:E'; auto.
+    apply pat_local in E'; [congruence|apply lt_pat_local].
+Qed.
+
+Lemma filter_lt_tail r : startswith r s_lt_tail = true ->
+  exists r', r = s_lt_tail ++ r' /\ gfm_filter r = s_lt_tail ++ gfm_filter r'.
+Proof.
+  unfold s_lt_tail.
+  destruct r as [|a r]; [discriminate|]. rewrite sw_step. intro H. apply andb_true_iff in H as [Ha H].
+  destruct r as [|b r]; [discriminate|]. rewrite sw_step in H. apply andb_true_iff in H as [Hb H].
+  destruct r as [|c r]; [discriminate|]. rewrite sw_step in H. apply andb_true_iff in H as [Hc _].
+  apply N.eqb_eq in Ha, Hb, Hc. subst a b c. exists r. split; reflexivity.
+Qed.
+
+Lemma unf_amp_lt r : unf 0 (38 :: 108 :: 116 :: 59 :: r) = if tag_ahead r then 60 :: unf 0 r else 38 :: unf 0 (108 :: 116 :: 59 :: r).
+Proof.
+  assert (H0 : startswith (108 :: 116 :: 59 :: r) s_lt_tail = true).
+  { unfold s_lt_tail. rewrite !sw_step, !N.eqb_refl. destruct r; reflexivity. }
+  cbn [unf]. rewrite N.eqb_refl, H0. cbn [skipn andb]. destruct (tag_ahead r); reflexivity.
+Qed.
+
+Lemma unf_other c r : N.eqb c 38 && startswith r s_lt_tail = false -> unf 0 (c :: r) = c :: unf 0 r.
+Proof. intro H. cbn [unf]. rewrite H. reflexivity. Qed.
+
+Lemma unfilter_filter_len : forall n t, (length t <= n)%nat -> unf 0 (gfm_filter t) = unf 0 t.
+Proof.
+  induction n as [|n IH]; intros t Hn.
+  - destruct t; [reflexivity|simpl in Hn; inversion Hn].
+  - destruct t as [|c r]; [reflexivity|]. simpl in Hn. cbn [gfm_filter].
+    destruct (N.eqb c flow_open && tag_ahead r) eqn:E.
+    + apply andb_true_iff in E as [E1 E2]. apply N.eqb_eq in E1. rewrite flow_open_is in E1. subst c.
+      rewrite replace_open_60. change ([38; 108; 116; 59] ++ gfm_filter r) with (38 :: 108 :: 116 :: 59 :: gfm_filter r).
+      rewrite unf_amp_lt, tag_ahead_filter, E2. rewrite (unf_other 60 r) by reflexivity.
+      f_equal. apply IH. apply le_S_n in Hn. exact Hn.
+    + destruct (N.eqb c 38 && startswith r s_lt_tail) eqn:E2.
+      * apply andb_true_iff in E2 as [Ec E3]. apply N.eqb_eq in Ec. subst c.
+        destruct (filter_lt_tail r E3) as [r' [-> Hf]]. rewrite Hf. unfold s_lt_tail. cbn [app].
+        rewrite !unf_amp_lt, tag_ahead_filter. simpl in Hn. apply le_S_n in Hn.
+        destruct (tag_ahead r').
+        -- f_equal. apply IH. lia.
+        -- f_equal. change (108 :: 116 :: 59 :: gfm_filter r') with ([108; 116; 59] ++ gfm_filter r').
+           fold s_lt_tail. rewrite <- Hf. apply IH. exact Hn.
+      * rewrite (unf_other c r E2). rewrite unf_other by (rewrite startswith_filter; exact E2).
+        f_equal. apply IH. apply le_S_n in Hn. exact Hn.
+Qed.
+
+Lemma unf_no_esc t : no_esc t = true -> unf 0 t = t.
+Proof.
+  induction t as [|c r IH]; intro H; [reflexivity|]. cbn [no_esc] in H. apply andb_true_iff in H as [H1 H2].
+  apply negb_true_iff in H1. cbn [unf]. rewrite H1. f_equal. apply IH. exact H2.
+Qed.
+
+(* un-filtering undoes the filter (and nothing but "&lt;" + tag is touched by either) *)
+Theorem gfm_unfilter (text : str) :
+  unfilter (gfm_filter text) = unfilter text
+  /\ (no_esc text = true -> unfilter (gfm_filter text) = text).
+Proof.
+  unfold unfilter. split.
+  - apply (unfilter_filter_len (length text)). apply le_n.
+  - intro H. rewrite (unfilter_filter_len (length text)) by apply le_n. apply unf_no_esc. exact H.
+Qed.
+
 (* non-vacuity: <script> is neutralised, <scripts> is not touched *)
 Example gfm_example :
   gfm_filter [60;83;99;114;105;112;116;62;60;115;99;114;105;112;116;115;62]
